@@ -6,9 +6,12 @@ package c18
 //   TestReplica – a multi-consumer history executed on several independent replicas (fresh keepers, stores,
 //                 Go maps); per block the raw provider/consumer stores, validator updates in returned order,
 //                 packet bytes and events are digested; all replicas must agree bit for bit.
+//   TestChangeover – the real consumer EndBlock in the PreCCV state (standalone -> consumer changeover) against
+//                 Model/Determinism.v tag 3; the handed-over consensus set is checked by the extracted monitor.
 //   TestLint    – go/ast inventory of constructs whose behaviour the Go runtime leaves open.
 
 import (
+	"context"
 	"crypto/sha256"
 	"encoding/binary"
 	"encoding/json"
@@ -29,7 +32,9 @@ import (
 
 	"cosmossdk.io/math"
 
+	cryptotypes "github.com/cosmos/cosmos-sdk/crypto/types"
 	sdk "github.com/cosmos/cosmos-sdk/types"
+	paramstypes "github.com/cosmos/cosmos-sdk/x/params/types"
 	stakingtypes "github.com/cosmos/cosmos-sdk/x/staking/types"
 
 	abci "github.com/cometbft/cometbft/abci/types"
@@ -38,6 +43,7 @@ import (
 
 	providerkeeper "github.com/cosmos/interchain-security/v7/x/ccv/provider/keeper"
 	providertypes "github.com/cosmos/interchain-security/v7/x/ccv/provider/types"
+	"github.com/cosmos/interchain-security/v7/x/ccv/consumer"
 	ccvtypes "github.com/cosmos/interchain-security/v7/x/ccv/types"
 )
 
@@ -110,6 +116,109 @@ func TestFn(t *testing.T) {
 		acc := ccvtypes.AccumulateChanges(mkU(k.Cur), mkU(k.New))
 		diff := providerkeeper.DiffValidators(mkV(k.Cur), mkV(k.New))
 		return common.L(0, encIn(k.Cur), encIn(k.New)), common.L(enc(acc), enc(diff))
+	})
+}
+
+// ---------------------------------------------------------------- changeover part
+
+// TestChangeover drives the real consumer AppModule.EndBlock of a previously standalone chain in the PreCCV state
+// (ChangeoverToConsumer, GetLastBondedValidatorsUtil, ApplyCCValidatorChanges, ChangeoverIsComplete) with a second
+// fake World as the standalone chain's staking module.  Key ids: standalone validator i = i, extra provider key j = 100+j.
+type coCase struct {
+	Init    [][]int64 `json:"init"`    // provider initial validator set: [key id, power], in stored order
+	Tokens  []int64   `json:"tokens"`  // standalone validators' power (tokens = power * PowerReduction); 0 = not bonded
+	MaxVals int64     `json:"maxvals"` // standalone staking MaxValidators
+	Height  int64     `json:"height"`  // init genesis height
+}
+
+type saStaking struct {
+	common.FakeStaking
+	max uint32
+}
+
+func (s saStaking) MaxValidators(context.Context) (uint32, error) { return s.max, nil }
+
+func TestChangeover(t *testing.T) {
+	common.RunCases(t, func(c common.Case) (common.T, common.T) {
+		var k coCase
+		if err := json.Unmarshal(c.Raw, &k); err != nil {
+			panic(err)
+		}
+		sw := common.NewWorld(0)
+		for _, p := range k.Tokens {
+			sw.AddVal(p * common.PowerReduction)
+		}
+		sw.StakingEndBlock()
+		keyOf := func(id int64) cryptotypes.PubKey {
+			if id >= 100 {
+				return common.Key(3000 + int(id)).PubKey()
+			}
+			return sw.Vals[id].Priv.PubKey()
+		}
+		idOf := map[string]int64{}
+		tmStr := func(pk cryptotypes.PubKey) string {
+			k := common.TMKey(pk)
+			return k.String()
+		}
+		for i := range sw.Vals {
+			idOf[tmStr(keyOf(int64(i)))] = int64(i)
+		}
+		for j := int64(100); j < 140; j++ {
+			idOf[tmStr(keyOf(j))] = j
+		}
+		// the oracle: what the standalone staking module reports as bonded, in its power order
+		bondedVals, _ := common.FakeStaking{W: sw}.GetBondedValidatorsByPower(context.Background())
+		bonded := make([]common.T, 0, len(bondedVals))
+		for _, v := range bondedVals {
+			pk, err := v.CmtConsPublicKey()
+			if err != nil {
+				panic(err)
+			}
+			bonded = append(bonded, common.L(idOf[pk.String()], v.ConsensusPower(math.NewInt(common.PowerReduction))))
+		}
+		init := make([]abci.ValidatorUpdate, len(k.Init))
+		encInit := make([]common.T, len(k.Init))
+		for i, e := range k.Init {
+			init[i] = abci.ValidatorUpdate{PubKey: common.TMKey(keyOf(e[0])), Power: e[1]}
+			encInit[i] = common.L(e[0], e[1])
+		}
+		w := common.NewWorld(0)
+		env := common.NewConsumerEnv(t, w, "standalone-1")
+		env.Ctx = env.Ctx.WithBlockHeight(k.Height)
+		env.K.SetStandaloneStakingKeeper(saStaking{FakeStaking: common.FakeStaking{W: sw}, max: uint32(k.MaxVals)})
+		// what InitGenesis does for state.PreCCV (x/ccv/consumer/keeper/genesis.go)
+		env.K.SetPreCCVTrue(env.Ctx)
+		env.K.MarkAsPrevStandaloneChain(env.Ctx)
+		env.K.SetInitialValSet(env.Ctx, init)
+		env.K.SetInitGenesisHeight(env.Ctx, env.Ctx.BlockHeight())
+		env.Module = consumer.NewAppModule(*env.K, paramstypes.Subspace{})
+		upds, err := env.Module.EndBlock(env.Ctx)
+		if err != nil {
+			panic(err)
+		}
+		encU := make([]common.T, len(upds))
+		for i, u := range upds {
+			encU[i] = common.L(idOf[u.PubKey.String()], u.Power)
+		}
+		type kv struct{ id, p int64 }
+		var cc []kv
+		for _, v := range env.K.GetAllCCValidator(env.Ctx) {
+			pk, err := v.ConsPubKey()
+			if err != nil {
+				panic(err)
+			}
+			cc = append(cc, kv{idOf[tmStr(pk)], v.Power})
+		}
+		sort.Slice(cc, func(a, b int) bool { return cc[a].id < cc[b].id })
+		encC := make([]common.T, len(cc))
+		for i, e := range cc {
+			encC[i] = common.L(e.id, e.p)
+		}
+		flags := []common.T{common.B(env.K.IsPreCCV(env.Ctx))}
+		for d := int64(0); d < 4; d++ {
+			flags = append(flags, common.B(env.K.ChangeoverIsComplete(env.Ctx.WithBlockHeight(k.Height+d))))
+		}
+		return common.L(3, common.T(encInit), common.T(bonded), k.MaxVals, k.Height), common.L(common.T(encU), common.T(encC), common.T(flags))
 	})
 }
 
